@@ -923,3 +923,132 @@ Definition thread_ok (p : list Z * list Z) : bool :=
 
 Definition thread_oracle (ops obs : list (list Z)) : bool :=
   (length ops =? length obs)%nat && forallb thread_ok (combine ops obs).
+
+(* ---------- engine "tx": manual mode with callback-style sleepers and sleep_for ----------
+   "You can actually schedule anything" (scheduler.h:38-39): a sleeper may be a callback promise (make_promise(fn)) whose
+   completion handler runs synchronously INSIDE the promise resolution and re-enters the scheduler: it may cancel another
+   sleep and/or arm a new one.  cancel(id, e) resolves the promise after remove() has released _mx (scheduler.h:199-205),
+   get_expired() returns the promise to the caller who resolves it, so a handler always runs with _mx free.
+   op [1; pid; id; tp]                              schedule(id, future pid's promise, tp)
+   op [8; pid; id; tp; act; cid; sid; stp; spid]    schedule(id, make_promise(handler), tp); the handler records the outcome
+                                                    as pid's state and, unless the promise was merely dropped,
+                                                    act 1/3: cancel(cid);  act 2/3: schedule(sid, future spid's promise, stp)
+                                                    (skipped when spid is already in use)
+   op [9; pid; id; kind; frac]                      future pid = sleep_for(seq seconds + frac units, id), units by kind:
+                                                    0 ns, 1 us, 2 ms, 3 quarter-milliseconds; observation: is the stored
+                                                    time point >= (clock before the call) + duration, and <= (clock after
+                                                    the call) + duration — never earlier than asked for
+   op [3; now] get_expired + resolve, [4; id] remove + resolve, [5; id] cancel(id), [6; id; c] cancel(id, test_exception c)
+   Observation: status, two result words, the futures / handlers whose state changed, array size. *)
+Record hact := mkH { h_act : Z; h_cid : Z; h_sid : Z; h_stp : Z; h_spid : nat }.
+Record xst := mkX { x_sched : list entry; x_fut : list (option fstat); x_hnd : list (option hact); x_seq : Z }.
+Definition xst0 : xst := mkX [] [] [] 1.
+
+(* time points produced by sleep_for lie beyond every synthetic time point; `seq` whole seconds keep them ordered *)
+Definition big_tp : Z := 1000000000000000.
+
+(* completion of promise pid with outcome v; its handler, if any, runs inside *)
+Fixpoint xfire (fuel : nat) (s : xst) (pid : nat) (v : fstat) : res xst :=
+  match fuel with
+  | O => ErrFuel
+  | S f =>
+      let s1 := mkX (x_sched s) (put (x_fut s) pid (Some v)) (x_hnd s) (x_seq s) in
+      match get (x_hnd s) pid, v with
+      | None, _ => Ok s1
+      | Some _, FDropped => Ok s1
+      | Some a, _ =>
+          s2 <- (if (h_act a =? 1) || (h_act a =? 3) then
+                   (* sch.cancel(cid) from inside the handler: remove under the lock, resolve outside *)
+                   r <- remove (x_sched s1) (h_cid a) ;;
+                   match snd r with
+                   | Some t => match e_p t with
+                               | Some p => xfire f (mkX (fst r) (x_fut s1) (x_hnd s1) (x_seq s1)) p (FExc 0)
+                               | None => ErrFuel
+                               end
+                   | None => Ok (mkX (fst r) (x_fut s1) (x_hnd s1) (x_seq s1))
+                   end
+                 else Ok s1) ;;
+          if ((h_act a =? 2) || (h_act a =? 3)) && isnone (get (x_fut s2) (h_spid a)) then
+            Ok (mkX (fst (schedule (x_sched s2) (mkE (h_stp a) (Some (h_spid a)) (h_sid a))))
+                    (put (x_fut s2) (h_spid a) (Some FPending)) (x_hnd s2) (x_seq s2))
+          else Ok s2
+      end
+  end.
+
+Definition xfuel (s : xst) : nat := S (S (length (x_fut s))).
+
+Definition xremove (s : xst) (id : Z) (v : fstat) : res (xst * (Z * Z)) :=
+  r <- remove (x_sched s) id ;;
+  match snd r with
+  | Some t => match e_p t with
+              | Some p => s' <- xfire (xfuel s) (mkX (fst r) (x_fut s) (x_hnd s) (x_seq s)) p v ;; Ok (s', (1, 0))
+              | None => ErrFuel
+              end
+  | None => Ok (mkX (fst r) (x_fut s) (x_hnd s) (x_seq s), (0, 0))
+  end.
+
+Definition xfresh (s : xst) (p : Z) : bool := okpid p && isnone (get (x_fut s) (Z.to_nat p)).
+
+(* None = rejected *)
+Definition xstep (s : xst) (o : list Z) : res (option (xst * (Z * Z))) :=
+  match o with
+  | [1; p; id; tp] =>
+      if xfresh s p && (0 <=? id) then
+        Ok (Some (mkX (fst (schedule (x_sched s) (mkE tp (Some (Z.to_nat p)) id))) (put (x_fut s) (Z.to_nat p) (Some FPending))
+                      (x_hnd s) (x_seq s), (0, 0)))
+      else Ok None
+  | [8; p; id; tp; act; cid; sid; stp; sp] =>
+      if xfresh s p && (0 <=? id) && (0 <=? act) && (act <=? 3) && (0 <=? cid) && (0 <=? sid) && okpid sp && negb (sp =? p) then
+        Ok (Some (mkX (fst (schedule (x_sched s) (mkE tp (Some (Z.to_nat p)) id))) (put (x_fut s) (Z.to_nat p) (Some FPending))
+                      (put (x_hnd s) (Z.to_nat p) (Some (mkH act cid sid stp (Z.to_nat sp)))) (x_seq s), (0, 0)))
+      else Ok None
+  | [9; p; id; kind; frac] =>
+      if xfresh s p && (0 <=? id) && (0 <=? kind) && (kind <=? 3) && (0 <=? frac) && (frac <? 1000000) then
+        Ok (Some (mkX (fst (schedule (x_sched s) (mkE (big_tp + x_seq s) (Some (Z.to_nat p)) id)))
+                      (put (x_fut s) (Z.to_nat p) (Some FPending)) (x_hnd s) (x_seq s + 1), (1, 1)))
+      else Ok None
+  | [3; now] =>
+      if now <? big_tp then
+        r <- get_expired (x_sched s) now ;;
+        match snd r with
+        | ExpP t => match e_p t with
+                    | Some p => s' <- xfire (xfuel s) (mkX (fst r) (x_fut s) (x_hnd s) (x_seq s)) p FValue ;; Ok (Some (s', (1, 0)))
+                    | None => ErrFuel
+                    end
+        | ExpT tp => Ok (Some (mkX (fst r) (x_fut s) (x_hnd s) (x_seq s), (0, if big_tp <=? tp then -1 else tp)))
+        | ExpMax => Ok (Some (mkX (fst r) (x_fut s) (x_hnd s) (x_seq s), (2, 0)))
+        end
+      else Ok None
+  | [4; id] => if 0 <=? id then r <- xremove s id FValue ;; Ok (Some r) else Ok None
+  | [5; id] => if 0 <=? id then r <- xremove s id (FExc 0) ;; Ok (Some r) else Ok None
+  | [6; id; c] => if (0 <=? id) && (1 <=? c) && (c <=? 1000) then r <- xremove s id (FExc c) ;; Ok (Some r) else Ok None
+  | _ => Ok None
+  end.
+
+Fixpoint xrun_from (s : xst) (ops : list (list Z)) : list (list Z) :=
+  match ops with
+  | [] => []
+  | o :: t =>
+      match xstep s o with
+      | Ok (Some (s1, (r1, r2))) =>
+          let chg := diff_from 0 (x_fut s) (x_fut s1) in
+          (0 :: r1 :: r2 :: Z.of_nat (length chg / 2) :: chg ++ [Z.of_nat (length (x_sched s1))]) :: xrun_from s1 t
+      | Ok None => [1; 0; 0; 0; 0] :: xrun_from s t
+      | _ => [[-999]]
+      end
+  end.
+
+Definition tx_run (ops : list (list Z)) : list (list Z) := xrun_from xst0 ops.
+
+(* property on a trace: every call returned (no hang marker -998, no crash marker), one observation per op; a sleep_for
+   deadline is never earlier than asked for; and — the scenario being deterministic — the completions are exactly the
+   ones the specification dictates (each sleep completed once, by the call that hits it or by a handler's nested cancel,
+   with that outcome) *)
+Definition tx_oracle (ops obs : list (list Z)) : bool :=
+  (length ops =? length obs)%nat
+  && forallb (fun o => match o with x :: _ => negb (x =? -998) && negb (x =? -999) | [] => false end) obs
+  && forallb (fun p => match fst p, snd p with
+                       | 9 :: _, 0 :: lo :: _ => lo =? 1
+                       | _, _ => true
+                       end) (combine ops obs)
+  && forallb (fun p => zlist_eqb (fst p) (snd p)) (combine obs (tx_run ops)).
